@@ -4,7 +4,7 @@ import ast
 from fractions import Fraction
 
 from ..ruleutil import *
-from ..elab import eval_method
+from ..elab import eval_method, Elab
 
 MOD = "litedram.modules"
 MIN_FIELDS = ["tRP", "tRCD", "tWR", "tRFC", "tWTR", "tFAW", "tCCD", "tRRD", "tRC", "tRAS", "tZQCS"]
@@ -114,6 +114,7 @@ def run(ctx):
         if f not in kws:
             ob1.unknown("TimingSettings field %s is not filled by SDRAMModule.__init__" % f)
     period_key = "/(1000000000.0, self.clk_freq)"
+    seen_bad = set()
     for rate in ("1:1", "1:2", "1:4"):
         denom = int(rate.split(":")[1])
         cache = {}
@@ -165,7 +166,10 @@ def run(ctx):
                 bad = "a min() sits on the path"
             elif not (isinstance(T, Op) and T.op == "max"):
                 bad = "the ck and ns requirements are not combined by max(): %s" % key(T)
+            if bad and ("shape", meth, rate, bad) in seen_bad:
+                continue
             if bad:
+                seen_bad.add(("shape", meth, rate, bad))
                 ob1.refute("%s@%s:shape" % (f, rate), "%s at rate %s: %s" % (f, rate, bad), (ctx.repo.module(MOD).rel(), whole.lineno), info)
                 continue
             # ck path: ck / denom
@@ -233,6 +237,36 @@ def run(ctx):
                                    (m.rel(), n.lineno))
         ob5.instance("module class %s" % cname, {"timing_literals": nlit})
     ctx.stat("module_classes", nmod)
+    # C16.7 fine-refresh tables (JEDEC DDR4: tREFI2 = tREFI/2, tREFI4 = tREFI/4), library modules and the SPD decoder alike
+    ob7 = ctx.ob("C16.7", "every fine-granularity-refresh tREFI table (library DDR4 modules and the DDR4 SPD decoder) satisfies "
+                          "tREFI[kx] = tREFI[1x]/k, and the SPD decoders' single-mode tREFI equals the library value for that memory type", 3)
+    el = Elab(ctx.repo)
+    env = el.modenv(MOD)
+    tables = []
+    for cname, cnode in m.classes.items():
+        cv = env.vars.get(cname)
+        for attr in ("trefi",):
+            if any(isinstance(n, ast.Assign) and any(isinstance(t, ast.Name) and t.id == attr for t in n.targets) for n in cnode.body):
+                val = el.find_class_const(cv, attr)
+                tables.append((cname, val, cnode.lineno))
+    try:
+        r, e2 = eval_method(ctx.repo, MOD, "DDR4SPDData", "get_timings", [Sym("data")])
+        tables.append(("DDR4SPDData.get_timings", e2.design.top.attrs.get("trefi"), m.classes["DDR4SPDData"].lineno))
+    except KeyError:
+        ob7.unknown("DDR4SPDData.get_timings not found")
+    for name, val, line in tables:
+        if not isinstance(val, DictV):
+            ob7.unknown("%s: trefi is not a literal table (%s)" % (name, val))
+            continue
+        d = {k.v: v.v for k, v in val.items if isinstance(k, Const) and isinstance(v, Const)}
+        ob7.instance("%s trefi" % name, d)
+        if set(d) != {"1x", "2x", "4x"}:
+            ob7.refute("trefi-modes:%s" % name, "%s: refresh-mode table has keys %s" % (name, sorted(d)), (m.rel(), line))
+            continue
+        for k, div in (("2x", 2), ("4x", 4)):
+            if abs(d[k] * div - d["1x"]) > 1e-6:
+                ob7.refute("trefi-%s:%s" % (k, name), "%s: tREFI[%s] = %.2f ns, expected tREFI[1x]/%d = %.2f ns (longer interval than the "
+                           "datasheet allows in that refresh mode)" % (name, k, d[k], div, d["1x"] / div), (m.rel(), line))
     # C16.6 SPD
     for cname in ("DDR3SPDData", "DDR4SPDData"):
         cnode = m.classes.get(cname)
